@@ -499,16 +499,23 @@ namespace simmpi
     G->reqs.emplace_back();
     G->groups.emplace_back();
     G->files.emplace_back();
-    // transport knobs of this run
+    // transport knobs: drawn once per world; the k-th world of a run uses the cfg prefix "w<k>." (k >= 2)
+    static uint64_t last_serial = 0; static int world_no = 0;
+    if(last_serial != sim::run_serial()) { last_serial = sim::run_serial(); world_no = 0; }
+    ++world_no;
+    const std::string pre = world_no > 1 ? "w" + std::to_string(world_no) + "." : "";
     static const long long limits[4] = {-1, 0, 64, 4096};
-    G->eager_limit = limits[sim::cfg_weighted("eager_idx", {4, 2, 2, 2})];
-    G->lat_mode = int(sim::cfg_int("lat_mode", 0, 2));
-    sim::fault_setup("MSG_DELAY", {1000});
-    sim::fault_setup("COLL_EARLY_EXIT", {100, 500, 1000});
-    sim::fault_setup("REDUCE_ASSOC", {1000});
-    sim::fault_setup("ICOLL_DELAY", {1000});
-    sim::fault_setup("TEST_NOT_READY", {100, 400});
-    sim::fault_setup("WAITANY_PICK", {1000});
+    G->eager_limit = limits[sim::cfg_weighted((pre + "eager_idx").c_str(), {4, 2, 2, 2})];
+    G->lat_mode = int(sim::cfg_int((pre + "lat_mode").c_str(), 0, 2));
+    if(world_no == 1)
+    {
+      sim::fault_setup("MSG_DELAY", {1000});
+      sim::fault_setup("COLL_EARLY_EXIT", {100, 500, 1000});
+      sim::fault_setup("REDUCE_ASSOC", {1000});
+      sim::fault_setup("ICOLL_DELAY", {1000});
+      sim::fault_setup("TEST_NOT_READY", {100, 400});
+      sim::fault_setup("WAITANY_PICK", {1000});
+    }
     G->task_of_rank.assign(size_t(n), -1);
     for(int r = 0; r < n; ++r)
     {
